@@ -40,7 +40,7 @@ harness!(name=c09_digamma_rec, prop=C09, mode=R, kind=normal, tier=quick, unwind
 });
 // @cap c09_gamma_: 150
 // @claim c09_gamma_reflect: for z < 1/2 the reflection formula pi / (sin(pi z) Gamma(1-z)) is what gamma computes (R, sin uninterpreted)
-harness!(name=c09_gamma_reflect, prop=C09, mode=R, kind=normal, tier=thorough, unwind=18, {
+harness!(name=c09_gamma_reflect, prop=C09, mode=R, kind=normal, tier=quick, unwind=18, {
     let z = inp::f64(0);
     vassume!(z > -20.0 && z < 0.5);
     let g = gamma(z);
